@@ -743,10 +743,10 @@ def oracle_client(prop, sc, tr, run_one):
 def run_client_lockstep(res, prop, tier, seed, wd):
     """-> coverage dict; reports a violation on res when the lockstep comparison fails"""
     rng = random.Random(seed + 23)
-    n = {"quick": 40, "thorough": 600}[tier]
+    n = tier_size(tier, 40, 600)
     scs = [gen_client_scenario(rng, big_batches=(i % 4 == 3)) for i in range(n)]
     # the same kind of history through the crate's reqwest Client over real HTTP on the loopback interface
-    n_http = {"quick": 8, "thorough": 120}[tier]
+    n_http = tier_size(tier, 8, 120)
     http_scs = [dict(gen_client_scenario(rng, big_batches=(i % 4 == 3)), kind="uhttpclient") for i in range(n_http)]
     http_trs = run_harness_sharded("server", http_scs, wd)
     skipped = [t.get("skipped") for t in http_trs if isinstance(t, dict) and "skipped" in t]
@@ -805,7 +805,7 @@ SORACLE = {"C07": oracle_c07, "C08": oracle_c08, "C01": oracle_c01_server}
 
 
 def gen_server_suite(prop, tier, rng):
-    n = {"quick": 60, "thorough": 1200}[tier]
+    n = tier_size(tier, 60, 1200)
     scs = []
     for i in range(n):
         for kind in ("uist", "jura"):
